@@ -20,7 +20,10 @@ def fft_case(item):
     N = case["N"]
     rng0 = np.random.default_rng(seed)
     mags = {0: np.arange(1, N + 1, dtype=float), 1: np.ones(N), 2: np.array([(3 * k) % 5 + 1 for k in range(N)], dtype=float),
-            3: rng0.uniform(0.5, 2.0, size=N)}[pat]
+            3: rng0.uniform(0.5, 2.0, size=N),
+            # spectra in other physical units: the statement is about magnitudes, whatever their scale
+            4: rng0.uniform(0.5, 2.0, size=N) * 1e-18, 5: np.arange(1, N + 1, dtype=float) * 1e9}[pat]
+    unit = float(np.max(mags))
     f = mags * np.exp(1j * rng0.uniform(0, 2 * np.pi, size=N))       # the caller's phases are arbitrary
     f[0] = mags[0]
     if N % 2 == 0:
@@ -35,7 +38,7 @@ def fft_case(item):
         return probs
     X = np.fft.fft(x)
     want = np.array([mags[m] for m in case["map"]])
-    if not np.allclose(np.abs(X), want, rtol=1e-9, atol=1e-9):
+    if not np.allclose(np.abs(X), want, rtol=1e-9, atol=1e-9 * unit):
         probs.append(("dft_magnitudes_are_the_prescribed_ones", np.abs(X).round(6).tolist(), want.tolist()))
     return probs
 
@@ -82,7 +85,9 @@ def record_filter(spec):
         # corner frequencies from the bilinear coefficients: pole corner (fmin_i) below zero corner (fmax_i), then the next pole
         fz = (1 - z) / (1 + z) * fs / np.pi
         fp = (1 - p) / (1 + p) * fs / np.pi
-        inter = bool(np.all(fp < fz + 1e-12) and np.all(fz[:-1] < fp[1:] + 1e-12))
+        # (corners are recovered from 1 - p with p within 1e-8 of 1: allow the 1e-8 relative rounding of that difference; for
+        #  alpha = 2 a zero corner coincides with the next pole corner)
+        inter = bool(np.all(fp < fz * (1 + 1e-6) + 1e-12) and np.all(fz[:-1] < fp[1:] * (1 + 1e-6) + 1e-12))
         e1 = -1
         if 4 * fe_min <= 1.0 <= fe_max / 4:
             _h = np.ones(1, dtype=complex)
@@ -109,7 +114,7 @@ def run(tier):
         raise tlc.TLCError(f"FftNoise.tla violates {res.violated}")
     V.model(res, "FftNoise.tla: Hermitian mirror index logic for odd and even lengths")
     cases = res.json_prints()
-    items = [(c, pat, 10 * sd + k) for k, c in enumerate(cases) for pat in (0, 1, 2, 3)]
+    items = [(c, pat, 10 * sd + k) for k, c in enumerate(cases) for pat in (0, 1, 2, 3, 4, 5)]
     for it, probs in zip(items, common.pmap(fft_case, items, chunksize=8)):
         V.case({"N": it[0]["N"], "pattern": it[1]}, True)
         for (what, got, exp) in probs:
@@ -124,6 +129,8 @@ def run(tier):
     # shaping filter contract
     rnd = random.Random(sd + 61)
     grid = [(al, fs, fmin, fmax) for al in (0.01, 0.25, 0.5, 1.0, 1.5, 2.0) for (fs, fmin, fmax) in ((100.0, 0.01, 10.0), (1000.0, 0.1, 500.0), (2.0, 1e-4, 0.2), (10.0, 0.5, 5.0), (100.0, 1.0, 40.0), (1000.0, 0.05, 1.0))]
+    # extreme band-edge to sampling-rate ratios (f_min/fs down to 1e-9: poles within 1e-8 of the unit circle)
+    grid += [(al, fs, fmin, fmax) for al in (0.5, 1.0, 2.0) for (fs, fmin, fmax) in ((1e6, 1e-3, 1e4), (1e5, 1e-4, 10.0))]
     if tier == "thorough":
         grid += [(round(rnd.uniform(0.01, 2.0), 3), fs, fmin, fmax) for fs, fmin, fmax in ((50.0, 0.003, 25.0), (1.0, 1e-5, 0.5), (400.0, 1.0, 40.0)) for _ in range(8)]
     specs = [dict(grid=grid[i::6]) for i in range(6)]
